@@ -90,6 +90,11 @@ def rawiter_loop(I, n, spec, script):
         raise PyRaise(ExcVal(CScriptInvalidError, ('missing data length',)))
     e = st[pos]
     I.fact(z3.And(e >= 0, e < 256))
+    if spec.split_op:
+        conds = [e == k for k in range(256)]
+        d = I.choice(256, conds)
+        I.st.pc.append(conds[d])
+        I.learn(e, d)
     opcode = I.wrap_int(e)
     if I.decide(e > 0x4e):
         data = None
